@@ -363,12 +363,15 @@ class Runner:
                 if ns is not None:
                     kw['namespace'] = ns
                 if cb:
+                    # 'fn' | 'co' | 'raise' | 'raise_co': the last two fail
+                    # after having been invoked
                     def callback(*args, _tok=token):
                         self.events.append(('callback', _tok, list(args)))
-                    if d.is_async and cb == 'co':
+                        if cb.startswith('raise'):
+                            raise Injected('injected fault in callback')
+                    if d.is_async and cb in ('co', 'raise_co'):
                         async def acallback(*args, _tok=token):
-                            self.events.append(('callback', _tok,
-                                                list(args)))
+                            callback(*args)
                         kw['callback'] = acallback
                     else:
                         kw['callback'] = callback
@@ -648,6 +651,14 @@ class Runner:
         return out
 
     def close(self):
+        # a message-queue manager of the harness: end its listener thread
+        # (it would otherwise wait on its inbox for ever)
+        stop = getattr(self.sio.manager, 'stop', None)
+        if stop is not None and not self.d.is_async:
+            try:
+                stop()
+            except Exception:
+                pass
         self.d.close()
 
 
